@@ -17,23 +17,37 @@ def D(**kw):
 
 # ------------------------------------------------------------------ C02
 
+def local_exact(prefix, m, n, ctx=2, extra=(), **kw):
+    mm, name, src, fn = MODES[m]
+    srcs = [src] + (['src/utf8_decode.c'] if m == 3 else [])
+    cov = ['end'] + (['accepted-quoted', 'accepted-dotted', 'rejected'] + (['accepted-multibyte'] if m == 3 else []) if n >= 3 else [])
+    return Query('%s-local-%s-len%d' % (prefix, name, n), 'a_local.c', repo=srcs,
+                 defs=D(VF_N=n, VF_CTX=ctx, VF_MODE=m, VF_EXACT_N=None) + list(extra), unwind=n + ctx + 3, covers=cov,
+                 bounds={'len': n, 'ctx_bytes': ctx, 'alphabet': '0x01-0xFF (every byte arbitrary)'},
+                 functions=[fn], timeout=3000, weight=n, **kw)
+
+
+def local_long(prefix, m, N=68, K=3, ascii_only=False, **kw):
+    mm, name, src, fn = MODES[m]
+    srcs = [src] + (['src/utf8_decode.c'] if m == 3 else [])
+    return Query('%s-local-%s-long-N%d' % (prefix, name, N), 'a_local.c', repo=srcs,
+                 defs=D(VF_N=N, VF_CTX=1, VF_MODE=m, VF_LONG=K) + (['-DVF_ASCII_ONLY'] if ascii_only else []),
+                 unwind=N + 4, covers=['end', 'accepted-quoted', 'rejected'], solver='cadical',
+                 bounds={'max_len': N, 'structure': 'one symbolic fill byte + %d arbitrary bytes at symbolic positions%s' % (K, ', ASCII only' if ascii_only else '')},
+                 functions=[fn], timeout=3000, weight=50, **kw)
+
+
 def c02_queries(tier):
     qs = []
-    N = 7 if tier == 'quick' else 10
-    for m, name, src, fn in MODES[:3]:
-        if tier == 'quick':
-            qs.append(Query('C02-local-%s-N%d' % (name, N), 'a_local.c', repo=[src],
-                            defs=D(VF_N=N, VF_CTX=2, VF_MODE=m), unwind=N + 4,
-                            covers=['end', 'accepted-quoted', 'accepted-dotted', 'rejected'],
-                            bounds={'max_len': N, 'ctx_bytes': 2, 'alphabet': '0x01-0xFF'},
-                            functions=[fn], timeout=900))
-        else:
-            for n in range(0, N + 1):
-                qs.append(Query('C02-local-%s-len%d' % (name, n), 'a_local.c', repo=[src],
-                                defs=D(VF_N=n, VF_CTX=2, VF_MODE=m, VF_EXACT_N=None), unwind=n + 4,
-                                covers=['end'] + (['accepted-quoted', 'accepted-dotted', 'rejected'] if n >= 3 else []),
-                                bounds={'len': n, 'ctx_bytes': 2, 'alphabet': '0x01-0xFF'},
-                                functions=[fn], timeout=3000, weight=n))
+    if tier == 'quick':
+        for m in (1, 2):
+            qs += [local_exact('C02', m, n) for n in list(range(0, 17)) + [63, 64, 65, 66]]
+        qs += [local_exact('C02', 0, n) for n in list(range(0, 17)) + [24]]
+    else:
+        for m in (1, 2):
+            qs += [local_exact('C02', m, n) for n in range(0, 73)]
+        qs += [local_exact('C02', 0, n) for n in list(range(0, 41)) + [48]]
+        qs.append(local_long('C02', 0))
     return qs
 
 
@@ -55,16 +69,26 @@ def email_query(prefix, m, N, extra_defs=(), covers=None, timeout=900, **kw):
                  timeout=timeout, **kw)
 
 
+def email_exact(prefix, m, n, **kw):
+    q = email_query(prefix, m, n, extra_defs=['-DVF_EXACT_N'], covers=['end'], timeout=5000, **kw)
+    q.name = q.name.replace('-N%d' % n, '-len%d' % n)
+    q.bounds = {'address_len': n, 'tld_check': 'symbolic', 'alphabet': '0x01-0xFF (every byte arbitrary)'}
+    q.optional_covers += ['accepted-hostname', 'accepted-literal', 'tld-class']
+    q.weight = n
+    return q
+
+
 def c01_queries(tier):
     N = 24 if tier == 'quick' else 40
     qs = [email_query('C01', m, N, timeout=3000) for m in range(4)]
-    # long family across the 64/65 boundary: bytes [3,61) hold one symbolic non-structural byte
-    L = 72 if tier == 'quick' else 80
+    # around the 64/65-octet boundary: every byte arbitrary, one query per length
+    lens = (65, 66, 67) if tier == 'quick' else (64, 65, 66, 67, 68, 70, 72, 80)
     for m in range(4):
-        q = email_query('C01long', m, L, extra_defs=D(VF_FILL_FROM=3, VF_FILL_TO=61, VF_MIN_LEN=60),
-                        covers=['end', 'lpart-too-long', 'accepted-lpart-64'], timeout=3000)
-        q.bounds = {'max_address_len': L, 'min_address_len': 60, 'structure': 'bytes [3,61) = one symbolic byte not in {@ [ ] . :}; all other bytes arbitrary'}
-        qs.append(q)
+        for n in lens:
+            q = email_exact('C01', m, n)
+            if n == 66:
+                q.covers = ['end', 'lpart-too-long', 'accepted-lpart-64']
+            qs.append(q)
     return qs
 
 
@@ -161,20 +185,12 @@ def c03_queries(tier):
                         optional_covers=['three-byte', 'two-byte', 'error-surrogate-lead', 'error-overlong-lead', 'four-byte'],
                         bounds={'window_bytes': L, 'exhaustive_over_window': True},
                         functions=['utf8_decode_init', 'utf8_decode_next', 'utf8_decode_at_byte', 'get', 'cont']))
-    N = 7 if tier == 'quick' else 10
     src = ['src/is_6531_local.c', 'src/utf8_decode.c']
     if tier == 'quick':
-        qs.append(Query('C03-local-6531-N%d' % N, 'a_local.c', repo=src, defs=D(VF_N=N, VF_CTX=2, VF_MODE=3), unwind=N + 4,
-                        covers=['end', 'accepted-quoted', 'accepted-dotted', 'rejected', 'accepted-multibyte'],
-                        bounds={'max_len': N, 'ctx_bytes': 2, 'alphabet': '0x01-0xFF'}, functions=['is_6531_local', 'utf8_decode_next'],
-                        timeout=900))
+        qs += [local_exact('C03', 3, n) for n in range(0, 13)]
     else:
-        for n in range(0, N + 1):
-            qs.append(Query('C03-local-6531-len%d' % n, 'a_local.c', repo=src,
-                            defs=D(VF_N=n, VF_CTX=2, VF_MODE=3, VF_EXACT_N=None), unwind=n + 4,
-                            covers=['end'] + (['accepted-quoted', 'accepted-dotted', 'rejected', 'accepted-multibyte'] if n >= 3 else []),
-                            bounds={'len': n, 'ctx_bytes': 2, 'alphabet': '0x01-0xFF'}, functions=['is_6531_local', 'utf8_decode_next'],
-                            timeout=3000, weight=n))
+        qs += [local_exact('C03', 3, n) for n in list(range(0, 19)) + [20]]
+        qs.append(local_long('C03', 3, ascii_only=True))
     M = 8 if tier == 'quick' else 11
     qs.append(cross_query('C03', 1, M, ['both-accept-quoted', 'both-reject'], 'ascii-6531-vs-5321',
                           srcs=['src/is_5321_local.c', 'src/is_6531_local.c', 'src/utf8_decode.c'], timeout=3000))
@@ -182,16 +198,23 @@ def c03_queries(tier):
     return qs
 
 
+def domain_exact(prefix, n, us=False, extra=(), **kw):
+    return Query('%s-domain%s-len%d' % (prefix, '-us' if us else '', n), 'a_domain.c', repo=['src/is_ascii_domain.c'],
+                 defs=D(VF_N=n, VF_EXACT_N=None) + (['-DLABELS_ALLOW_UNDERSCORE'] if us else []) + list(extra), unwind=n + 3,
+                 covers=['end'] + (['accepted-root-dot', 'accepted-hyphen'] if n >= 6 else []),
+                 bounds={'len': n, 'alphabet': '0x01-0xFF (every byte arbitrary)', 'LABELS_ALLOW_UNDERSCORE': bool(us)},
+                 functions=['is_ascii_domain'], timeout=5000, weight=n, solver='cadical' if n > 100 else None, **kw)
+
+
 def c04_queries(tier):
     qs = []
-    N = 11 if tier == 'quick' else 14
-    for us in (0, 1):
-        extra = ['-DLABELS_ALLOW_UNDERSCORE'] if us else []
-        qs.append(Query('C04-domain%s-N%d' % ('-us' if us else '', N), 'a_domain.c', repo=['src/is_ascii_domain.c'],
-                        defs=D(VF_N=N) + extra, unwind=N + 3,
-                        covers=['end', 'accepted-root-dot', 'accepted-hyphen', 'numeric', 'misplaced-hyphen'],
-                        bounds={'max_len': N, 'alphabet': '0x01-0xFF', 'LABELS_ALLOW_UNDERSCORE': bool(us)},
-                        functions=['is_ascii_domain'], timeout=3000))
+    if tier == 'quick':
+        qs += [domain_exact('C04', n) for n in list(range(0, 25)) + [63, 64, 65, 66, 67]]
+        qs += [domain_exact('C04', n, us=True) for n in range(0, 17)]
+    else:
+        qs += [domain_exact('C04', n) for n in list(range(0, 73)) + [96, 128, 192, 252, 253, 254, 255, 256]]
+        qs += [domain_exact('C04', n, us=True) for n in list(range(0, 33)) + [64, 65]]
+    qs.append(utf8dom_query('C04', 8, 8))
     def struct(name, K, maxlen, extra, covers, bounds, **kw):
         return Query('C04-domain-struct-' + name, 'a_domain.c', repo=['src/is_ascii_domain.c'],
                      defs=D(VF_STRUCT=K, VF_MAXLEN=maxlen) + extra, unwind=maxlen + 2,
@@ -228,16 +251,42 @@ def ip_query(prefix, fn, N, ctx, covers, alphabet=False, **kw):
                  note=('nested is_ipv4 replaced by an uninterpreted verdict within the bounds proved for the real is_ipv4' if fn == 6 else 'is_ipv4/is_ipv6 replaced by uninterpreted verdicts: dispatch only' if fn == 0 else ''), **kw)
 
 
+def ip_exact(prefix, fn, n, ctx=1, alphabet=False, **kw):
+    q = ip_query(prefix, fn, n, ctx, [], alphabet=alphabet, **kw)
+    q.name = q.name.replace('-N%d' % n, '-len%d' % n)
+    q.defs.append('-DVF_EXACT_N')
+    q.bounds = dict(q.bounds, len=n)
+    q.bounds.pop('max_len', None)
+    q.weight = n
+    return q
+
+
 def c05_queries(tier):
     qs = []
+    v6c = ['accepted-double-colon', 'accepted-trailing-dc', 'accepted-v4-tail']
     if tier == 'quick':
         qs.append(ip_query('C05', 4, 12, 2, ['accepted-short-quad', 'between-bounds']))
-        qs.append(ip_query('C05', 6, 10, 2, ['accepted-double-colon', 'accepted-trailing-dc', 'accepted-v4-tail']))
+        qs += [ip_exact('C05', 4, n) for n in (13, 14, 15, 16)]
+        qs.append(ip_query('C05', 6, 10, 2, v6c))
+        qs += [ip_exact('C05', 6, n, timeout=1500) for n in range(11, 17)]
+        q = ip_query('C05', 6, 20, 1, v6c, alphabet=True, timeout=1500)
+        q.solver = 'cadical'
+        qs.append(q)
         qs.append(ip_query('C05', 0, 9, 1, ['accepted-v6', 'accepted-v4']))
     else:
         qs.append(ip_query('C05', 4, 16, 2, ['accepted-short-quad', 'between-bounds', 'accepted-long-quad'], timeout=3000))
-        qs.append(ip_query('C05', 6, 13, 2, ['accepted-double-colon', 'accepted-trailing-dc', 'accepted-v4-tail'], timeout=3000))
-        qs.append(ip_query('C05', 6, 20, 1, ['accepted-double-colon', 'accepted-trailing-dc', 'accepted-v4-tail'], alphabet=True, timeout=3000))
+        qs += [ip_exact('C05', 4, n) for n in range(17, 25)]
+        qs.append(ip_query('C05', 6, 12, 2, v6c, timeout=3000))
+        qs += [ip_exact('C05', 6, n, timeout=5000) for n in list(range(13, 25)) + [28, 32]]
+        q = ip_query('C05', 6, 22, 1, v6c, alphabet=True, timeout=5000)
+        q.solver = 'cadical'
+        qs.append(q)
+        q = ip_query('C05', 6, 24, 1, v6c, timeout=5000)
+        q.name += '-struct'
+        q.defs.append('-DVF_STRUCT6')
+        q.solver = 'cadical'
+        q.bounds = {'max_len': 24, 'structure': 'one symbolic hex fill digit, ":" at <= 9 and "." at <= 4 symbolic positions, one arbitrary byte'}
+        qs.append(q)
         qs.append(ip_query('C05', 0, 12, 1, ['accepted-v6', 'accepted-v4'], timeout=3000))
     Nb = 20 if tier == 'quick' else 40
     qs += [email_query('C05', m, Nb, covers=['end', 'accepted-literal', 'accepted-tagged-v6', 'accepted-v4', 'accepted-untagged-v6'],
@@ -283,6 +332,28 @@ def special_long_query(prefix, N, prefixlen, memsafe=False, **kw):
                  functions=['is_special_domain'], solver='cadical', **kw)
 
 
+def special_shape_query(prefix, p1, p2, sfx, **kw):
+    pre = p1 + 1 + (p2 + 1 if p2 else 0)
+    N = pre + sfx
+    return Query('%s-special-shape-%d.%d+%d' % (prefix, p1, p2, sfx), 'a_special.c', repo=['src/is_special_domain.c'],
+                 defs=D(VF_N=N, VF_SHAPE_P1=p1, VF_SHAPE_P2=p2), unwind=N + 3, stubs=['env.c', 'memcpy_loop.c'],
+                 unwindset={'is_special_domain.0': sfx + 4, 'is_special_domain.3': sfx + 4},
+                 covers=['end', 'special-tld-after-label', 'not-special'],
+                 bounds={'leading labels': 'concrete lengths %d%s, made of one symbolic letter' % (p1, ', %d' % p2 if p2 else ''),
+                         'suffix': 'arbitrary, <= %d bytes' % sfx, 'domain': 'every valid host name without root dot of this shape'},
+                 functions=['is_special_domain'], timeout=3000, weight=40, **kw)
+
+
+def special_taillab_query(prefix, head, lab, **kw):
+    N = head + 1 + lab
+    return Query('%s-special-memsafe-taillabel-%d+%d' % (prefix, head, lab), 'a_special.c', repo=['src/is_special_domain.c'],
+                 defs=D(VF_N=N, VF_TAILLAB=lab) + ['-DVF_MEMSAFE', '-DVF_TAIL_ALIGN'], unwind=N + 3, stubs=['env.c', 'memcpy_loop.c'],
+                 unwindset={'is_special_domain.0': head + 4, 'is_special_domain.3': head + 4}, covers=['end'],
+                 bounds={'input': 'ANY %d bytes, then "." and a last label of concrete length %d of one symbolic byte' % (head, lab),
+                         'claim': 'memory safety / UB only (no validity assumption on the input)'},
+                 functions=['is_special_domain'], timeout=3000, weight=20, **kw)
+
+
 def c07_queries(tier):
     qs = [tldtable_query('C07')] + ([tld_query('C07', 3, 3), tld_query('C07', 2, 63)] if tier == 'quick' else [tld_query('C07', 5, 5), tld_query('C07', 3, 63)])
     N = 20 if tier == 'quick' else 40
@@ -293,8 +364,9 @@ def c07_queries(tier):
 
 def c09_queries(tier):
     if tier == 'quick':
-        return [special_query('C09', 13, timeout=1500)]
-    return [special_query('C09', 16, timeout=6000), special_query('C09', 80, prefixlen=66, timeout=6000)]
+        return [special_query('C09', 13, timeout=1500), special_shape_query('C09', 63, 0, 12)]
+    return [special_query('C09', 16, timeout=6000), special_shape_query('C09', 63, 0, 12), special_shape_query('C09', 7, 63, 12),
+            special_shape_query('C09', 62, 0, 12), special_shape_query('C09', 1, 63, 12), special_shape_query('C09', 63, 63, 12)]
 
 
 def c11_queries(tier):
@@ -325,6 +397,8 @@ def c16_queries(tier):
     qs = [email_query('C16', m, N, timeout=3000) for m in range(4)]
     qs += [email_query('C16extra', m, N, extra_defs=['-DEAV_EXTRA'],
                        covers=['end', 'accepted-hostname', 'accepted-literal', 'extra-literal', 'extra-domain'], timeout=3000) for m in range(4)]
+    # the leaf validators never return a positive code (a positive rc would be taken for a TLD class)
+    qs += [local_exact('C16', m, n) for m in range(4) for n in (5, 8)]
     return qs
 
 
@@ -422,6 +496,7 @@ def c06_queries(tier):
         q.bounds['object'] = 'terminator is the last byte'
         qs.append(q)
     qs.append(tld_query('C06', 2, 8))
+    qs += [special_taillab_query('C06', 4, l) for l in (63, 64, 65)]
     Ne = 14 if tier == 'quick' else 24
     for m in range(4):
         q = email_query('C06tail', m, Ne, extra_defs=T, covers=['end', 'accepted-hostname'])
